@@ -46,7 +46,7 @@ static void fill_pattern(uint8_t* p, size_t n, int pat, size_t bit) {
 /* ---- XXH64 ------------------------------------------------------------- */
 static void c20_xxh(void) {
     static const uint64_t SEEDS[] = { 0, 1, 0x100000000ull, 0xffffffffffffffffull, 11400714785074694791ull };
-    size_t maxlen = mc_thorough() ? 300 : 100;
+    size_t maxlen = 300;
     mc_stage("xxh64.every-length.patterns.seeds.alignments");
     for (size_t n = 0; n <= maxlen; n++)
         for (int pat = 0; pat < 4; pat++) {
@@ -199,7 +199,7 @@ static void c20_bloom(void) {
 static void c14a(void) {
     mc_rule("C14(a): carquet_crc32 / carquet_crc32_update against a bit-serial IEEE 802.3 CRC-32 and zlib's crc32(): every length 0..64 (quick) / 0..300 (thorough) x {zero, all-ones, every single-bit message, tagged} x source alignment 0..15 "
             "x every split point for update-composition; lengths up to 4100 for structured patterns. Non-trivial = length >= 1; distinct by (length, pattern, bit).");
-    size_t maxlen = mc_thorough() ? 300 : 64;
+    size_t maxlen = mc_thorough() ? 300 : 160;
     mc_stage("crc32.every-length.patterns.alignments.splits");
     for (size_t n = 0; n <= maxlen; n++)
         for (int pat = 0; pat < 4; pat++) {
@@ -224,7 +224,7 @@ static void c14a(void) {
             }
         }
     mc_stage("crc32.long-structured");
-    for (size_t n = 65; n <= 4100; n += (mc_thorough() ? 1 : 7))
+    for (size_t n = 65; n <= 4100; n += 1)
         for (int pat = 0; pat < 4; pat++) {
             if (!mc_next()) continue;
             mc_desc("crc32:long;n=%zu;pat=%d", n, pat); mc_feature("crc32"); mc_case_key(mc_mix(0x142, ((uint64_t)n << 8) | (uint64_t)pat)); mc_nontrivial();
